@@ -6,6 +6,7 @@ from __future__ import annotations
 
 import gc
 import random
+import zlib
 import warnings
 
 import numpy as np
@@ -142,7 +143,7 @@ def check_case(case, common, out):
             keys = opt.__dask_keys__()
         except Exception:
             return
-        rng = random.Random(hash(cid) & 0xFFFF)
+        rng = random.Random(zlib.crc32(cid.encode()) & 0xFFFF)  # not hash(): str hashes differ between interpreters, the sampled orders must not
         results = []
         raised = []
         MODES = ("sync-instrumented", "random", "lifo", "fifo", "threads")
